@@ -95,6 +95,7 @@ class C05(engine.Property):
         "builder-on-existing-vertices",
         "task-abandoned",
         "short-lived-filter-callable",
+        "mutator-cut-short-by-an-exception-out-of-a-user-override",
     ]
 
     # -- configuration -------------------------------------------------------------
@@ -329,6 +330,9 @@ class C05(engine.Property):
         if a is None and b is None:
             return None, None
         s["op:" + k] += 1
+        if k in MUTATING_OPS and b is not None and b.get("exc") == "InjectedFault":
+            s["probe:mutator-cut-short-by-an-exception-out-of-a-user-override"] += 1
+            s["fault:exception-out-of-subclass-override"] += 1
         if k == "spawn" and a is not None and "exc" not in a and op["t"] not in st.tasks:
             st.tasks.append(op["t"])
             s["fault:task-spawned"] += 1
